@@ -397,3 +397,41 @@ func VerifH_errpick() {
 	verifAssert(err == balancer.ErrTransientFailure, "C04: newErrPicker does not return its error")
 	verifObserve("isTF", verifB2U(err == balancer.ErrTransientFailure))
 }
+
+// Two state reports in a row.  The one-step harnesses start from states built over the fields the
+// harness knows; state that an operation leaves in places it does not know (a buffer kept for reuse, a
+// cache) only exists after a first operation.  Obligation here: the picker published by the first
+// report is an immutable snapshot - the second report does not change its channel list.
+func VerifH_usc2() {
+	w := verifMkWorld()
+	gb := w.gb
+	sc1 := verifChoose("usc1_sc", w.scList()...)
+	s1 := connectivity.State(verifInt("usc1_state"))
+	verifAssume(s1 >= 0 && s1 <= 4)
+	gb.UpdateSubConnState(sc1, balancer.SubConnState{ConnectivityState: s1})
+	p1, isGcp := gb.picker.(*gcpPicker)
+	verifAssume(isGcp && p1 != nil && p1 != w.pk && p1 != w.other) // the first report published a new picker
+	n1 := len(p1.scRefs)
+	var l1 [vR + vF]*subConnRef
+	for q := 0; q < vR+vF; q++ {
+		if q < n1 {
+			l1[q] = p1.scRefs[q]
+		}
+	}
+	verifReach("first report published a picker")
+	sc2 := verifChoose("usc2_sc", w.scList()...)
+	s2 := connectivity.State(verifInt("usc2_state"))
+	verifAssume(s2 >= 0 && s2 <= 4)
+	gb.UpdateSubConnState(sc2, balancer.SubConnState{ConnectivityState: s2})
+	verifReach("after")
+	same := len(p1.scRefs) == n1
+	for q := 0; q < vR+vF; q++ {
+		if q < n1 && q < len(p1.scRefs) {
+			same = verifAnd(same, p1.scRefs[q] == l1[q])
+		}
+	}
+	verifAssert(same, "C02,C04: the channel list of a published picker changed when a later picker was generated (pickers are immutable snapshots; calls still use superseded ones)")
+	verifAssert(verifLocksFree(), "C06: UpdateSubConnState left a lock held")
+	w.assertInv()
+	verifObserve("n1", uint64(n1))
+}
